@@ -91,3 +91,30 @@ MANIFEST_TEXT["C02"] = dict(
          "never be reported as success; the run fails as vacuous if any mutation kind was not exercised. " + EXPL,
     design_ref="DESIGN.md sections 3 and 4/C02", note=MODEL_NOTE,
     technique="property-based testing (rapidcheck): mutation of model-valid lines, oracle 'evaluation must throw std::exception', under ASan/UBSan")
+
+CONTAINER_KINDS = [k for k in KINDS if k not in ("flag", "int", "long", "uint", "double", "string", "opt_int", "opt_string")]
+PROPS["C06"] = dict(
+    units=[dict(harness="argh", mode="fold", quick=dict(cases=30000, opts=dict(cuts=3)),
+                thorough=dict(cases=250000, shards=16, opts=dict(cuts=5)))],
+    rule="one container destination of each of 20 kinds (vector<int/string>, list, deque, set, multiset, unordered_set, "
+         "forward_list, stack, queue, priority_queue, array, C array, tuple, bitset, vector<bool>, DynamicBitset, map, multimap, "
+         "unordered_map) x option set legal for the kind (separator, clear-before-assign, sort, unique drop/error, multi-value, "
+         "check, format, pair format, unset-flag, cardinality) x generated initial content x a value sequence of 1..12 elements "
+         "(duplicates, elements equal to the initial content, positions up to beyond the bitset size, doubled separators) x k "
+         "different cuts of that sequence into repeated uses and free words. Oracle: every cut == reference fold (or is refused "
+         "like the fold: duplicates with unique=error, overflow of array/tuple/bitset, failing check, cardinality) and all cuts "
+         "agree with each other. Non-trivial = (>= 2 uses or a free value) and >= 3 elements and an option among {clear, sort, "
+         "unique, separator, format, check} active; distinct by hash of (configuration, all argv).",
+    require_classes=dict(all=["fold.free_values", "fold.repeated_use", "fold.refused.duplicate", "fold.refused.fixed array overflow",
+                              "fold.refused.bitset position out of range", "attr.clear", "attr.sort", "attr.unique", "attr.listsep"]
+                         + ["fold.kind." + k for k in CONTAINER_KINDS]),
+    assumptions=DOMAIN_ASSUMPTIONS + [
+        "for fixed arrays the duplicate test covers the whole array including slots not assigned yet (pre-existing values count as content)",
+        "growth of vector<bool>/DynamicBitset destinations: only 'size > addressed position' is demanded, the factor is the library's choice",
+        "map/unordered_map keep the first value given for a key; checks on key-value destinations see the whole pair text (not generated)"],
+)
+MANIFEST_TEXT["C06"] = dict(
+    text="For every container kind the same generated value sequence is delivered in several different cuts (repeated uses, free values, "
+         "doubled separators); each result must equal an independent reference fold and all cuts must agree (cut-invariance). " + EXPL,
+    design_ref="DESIGN.md sections 3 and 4/C06", note=MODEL_NOTE,
+    technique="property-based testing (rapidcheck): reference fold + metamorphic cut-invariance, under ASan/UBSan")
